@@ -173,6 +173,66 @@ def through_union_of_structs(schema, path):
     return t is not None and t["k"] == "dunion"
 
 
+def _has_constraint(t, defs, fuel=12):
+    if t is None or fuel == 0:
+        return False
+    k = t["k"]
+    if k in ("int", "float"):
+        return any(b in t for b in ("ge", "gt", "le", "lt"))
+    if k == "string":
+        return "minlen" in t or "maxlen" in t
+    if k in ("array", "map"):
+        return _has_constraint(t["of"], defs, fuel - 1)
+    if k == "ref":
+        return _has_constraint(defs.get(t["name"]), defs, fuel - 1)
+    if k == "struct":
+        return any(_has_constraint(f["t"], defs, fuel - 1) for f in t["fields"])
+    return False
+
+
+def constraints_behind_non_struct_def(schema):
+    """the schema has a definition that is NOT a struct (nor an alias chain ending at a struct) and carries a
+    constraint: the registered defect (resolvesToConstraints follows a reference only when it resolves to a struct)"""
+    if not schema or not schema.get("defs"):
+        return None
+    defs = {d["name"]: d["t"] for d in schema["defs"]}
+    for d in schema["defs"]:
+        t, fuel = d["t"], 20
+        while t is not None and t["k"] == "ref" and fuel:
+            t, fuel = defs.get(t["name"]), fuel - 1
+        if t is not None and t["k"] not in ("struct", "dunion") and _has_constraint(t, defs):
+            return True
+    return False
+
+
+def path_crosses_non_struct_ref(schema, tname, path):
+    """the document path goes through a reference whose target (following alias chains) is not a struct"""
+    if not schema or not schema.get("defs"):
+        return None
+    defs = {d["name"]: d["t"] for d in schema["defs"]}
+    t = defs.get(tname)
+    for seg in list(path) + [None]:
+        fuel = 20
+        while t is not None and t["k"] == "ref" and fuel:
+            t, fuel = defs.get(t["name"]), fuel - 1
+            if t is not None and t["k"] not in ("struct", "ref", "dunion"):
+                return True
+        if t is None or seg is None:
+            break
+        if t["k"] == "struct":
+            f = [f for f in t["fields"] if f["name"] == seg]
+            t = f[0]["t"] if f else None
+        elif t["k"] in ("array", "map"):
+            t = t["of"]
+        elif t["k"] == "dunion":
+            cand = [defs.get(n) for n in t["of"]]
+            fs = [f for c in cand if c for f in c["fields"] if f["name"] == seg]
+            t = fs[0]["t"] if fs else None
+        else:
+            break
+    return False
+
+
 def doc_at(doc, pathstr):
     """value of a document at a BuildError path such as  a.b[3].c[key].d  (KeyError when absent)"""
     cur = doc
@@ -185,10 +245,57 @@ def doc_at(doc, pathstr):
     return cur
 
 
-def null_required_cause(doc, spaths, fmt):
-    """every complaint of the strict decoder is about a member that is null in the document"""
+def member_at(schema, tname, pathstr):
+    """the Src struct member (field dict) a BuildError path such as a.b[3].c[key].d ends at, or None"""
+    if not schema or not schema.get("defs"):
+        return None
+    defs = {d["name"]: d["t"] for d in schema["defs"]}
+
+    def res(t, fuel=20):
+        while t is not None and t["k"] == "ref" and fuel:
+            t, fuel = defs.get(t["name"]), fuel - 1
+        return t
+    t, f = defs.get(tname), None
+    for seg in re.findall(r"\[[^\]]*\]|[^.\[\]]+", pathstr):
+        t = res(t)
+        if t is None:
+            return None
+        if seg.startswith("["):
+            if t["k"] not in ("array", "map"):
+                return None
+            t, f = t["of"], None
+        else:
+            if t["k"] != "struct":
+                return None
+            fs = [x for x in t["fields"] if x["name"] == seg]
+            if not fs:
+                return None
+            f, t = fs[0], fs[0]["t"]
+    return f
+
+
+def null_required_cause(doc, spaths, fmt, schema=None, tname=None):
+    """every complaint of the strict decoder is about a member that is null in the document.  The registered
+    defect is about members whose schema allows null WITHOUT saying `nullable` on a type cog tracks: `any`
+    members, and (OpenAPI) members whose nullability comes through a reference; a null refused for any other
+    nullable member (a scalar, a union, ...) is a different root cause and is named after the member's type."""
     try:
         if spaths and all(doc_at(doc, p) is None for p in spaths):
+            kinds = set()
+            for p in spaths:
+                f = member_at(schema, tname, p)
+                if f is None:
+                    continue
+                defs = {d["name"]: d["t"] for d in schema["defs"]}
+                t, fuel = f["t"], 20
+                while t is not None and t["k"] == "ref" and fuel:
+                    t, fuel = defs.get(t["name"]), fuel - 1
+                k = "any" if (t is not None and t["k"] == "any") else \
+                    "ref" if (fmt == "openapi" and f["t"]["k"] == "ref") else f["t"]["k"]
+                if k not in ("any", "ref"):
+                    kinds.add(k)
+            if kinds:
+                return "null-refused-for-required-nullable-member-of-type:%s:%s" % ("+".join(sorted(kinds)), fmt)
             return "null-for-required-member-the-schema-allows-null-for:" + fmt
     except Exception:
         pass
@@ -238,7 +345,7 @@ def run(ctx, verdict, replay=None, model_ok=True):
         for fmt in srcgen.FORMATS:
             for _ in range(per_fmt):
                 s = srcgen.SrcGen(rng, max_depth=4 if thorough else 3, fmt=fmt,
-                                  features=srcgen.ALL_FEATURES + srcgen.EXTRA_FEATURES).schema("s%03d" % k)
+                                  features=srcgen.ALL_FEATURES + srcgen.EXTRA_FEATURES + ("alias_of_struct",)).schema("s%03d" % k)
                 k += 1
                 camp.add_schema(s, fmt)
                 plan.append((s["pkg"], s))
@@ -304,8 +411,9 @@ def run(ctx, verdict, replay=None, model_ok=True):
     by_size = lambda idxs: sorted(idxs, key=lambda i: len(json.dumps(camp.jobs[i]["docs"])))
     schema_by0 = {sid: s for sid, s in plan}
     for i in by_size(ev["PF_MISSED"]):
+        nsd = constraints_behind_non_struct_def(schema_by0.get(camp.jobs[i]["sid"]))
         report({"part": "validate", "kind": "violation-not-reported",
-                "cause": "constraint-behind-non-struct-reference" if i in alias else "other"}, i,
+                "cause": "constraint-behind-non-struct-reference" if (i in alias and nsd is not False) else "other"}, i,
                {"predicate": "pf_val_missed: Model/GoSemSpec08.v violations lists a path Validate() did not report"})
     for i in by_size(ev["PF_SPURIOUS"]):
         report({"part": "validate", "kind": "error-without-violation", "cause": "other"}, i,
@@ -380,7 +488,8 @@ def run(ctx, verdict, replay=None, model_ok=True):
                 if x["strict"] in ("err", "panic"):
                     oracle["valid_but_strict_rejects"] += 1
                     shapes = code_shapes(batch, j["sid"])
-                    cause = null_required_cause(j["pydocs"][d], x.get("spaths"), fmt) if x["strict"] == "err" else None
+                    cause = null_required_cause(j["pydocs"][d], x.get("spaths"), fmt, schema_by0.get(j["sid"]), j["type"]) \
+                        if x["strict"] == "err" else None
                     causes = [cause] if cause is not None else (
                         shape_causes(shapes, x["strict"] == "panic") or
                         [("panic:" if x["strict"] == "panic" else "") + fmt + "-front-end-or-other"])
@@ -396,7 +505,8 @@ def run(ctx, verdict, replay=None, model_ok=True):
                     continue
                 if kind in VALIDATE_FAULTS and x["std"] == "ok" and x["vals"] == "ok":
                     oracle["fault_not_caught_by_validate"] += 1
-                    cause = ("constraint-behind-non-struct-reference" if i in alias else
+                    crosses = path_crosses_non_struct_ref(schema_by0.get(j["sid"]), j["type"], path)
+                    cause = ("constraint-behind-non-struct-reference" if (i in alias and crosses is not False) else
                              "union-of-structs-degraded-to-any:" + fmt
                              if fmt == "openapi" and through_union_of_structs(schema_by0.get(j["sid"]), path)
                              else fmt + "-front-end-or-other")
